@@ -484,6 +484,13 @@ func registerVX() {
 		store(dst.V.(*Value), deepCopy(msg.body, map[interface{}]Value{}))
 		return m.C.True
 	}
+	// OmitAVP(msg, "Member.Path"): the AVP of that member is absent from the
+	// message (a peer other than the CHF may leave out optional AVPs).
+	intrinsics[p+"OmitAVP"] = func(m *Machine, fr *frame, args []Value) Value {
+		msg := opaqueOf(args[0].(Iface).V).Data.(*diamMsg)
+		msg.omit = append(msg.omit, mustStr(args[1]))
+		return nil
+	}
 	intrinsics[p+"Symbolic"] = func(m *Machine, fr *frame, args []Value) Value { return m.C.True }
 	intrinsics[p+"IsConcreteRun"] = func(m *Machine, fr *frame, args []Value) Value { return m.C.False }
 	intrinsics[p+"Time"] = vxTime
@@ -788,7 +795,16 @@ func registerStd() {
 		if mustInt(args[1]) != 10 {
 			s, ok := concreteStr(args[0])
 			if !ok {
-				m.unsupported("ParseInt base != 10 symbolic")
+				st, isStr := args[0].(*Str)
+				base := mustInt(args[1])
+				if !isStr || st.Dec != nil || (base != 0 && base != 2 && base != 8 && base != 16) {
+					m.unsupported("ParseInt base %d on this symbolic string", base)
+				}
+				bs := mustInt(args[2])
+				if bs == 0 {
+					bs = 64
+				}
+				return m.parseBase(fr, st.B, base, bs)
 			}
 			v, err := strconv.ParseInt(s, mustInt(args[1]), mustInt(args[2]))
 			if err != nil {
@@ -954,6 +970,41 @@ func registerStd() {
 			}
 		}
 		return nil
+	}
+	// sync.Pool: Get hands back an object that was Put earlier or a fresh one
+	// (the pool may drop its content at any time): both are explored.
+	I["(*sync.Pool).Put"] = func(m *Machine, fr *frame, args []Value) Value {
+		key := fmt.Sprintf("pool:%p", args[0].(*Value))
+		items, _ := m.env[key].([]Value)
+		if itf, ok := args[1].(Iface); ok && itf.T == nil {
+			return nil
+		}
+		m.env[key] = append(items, args[1])
+		return nil
+	}
+	I["(*sync.Pool).Get"] = func(m *Machine, fr *frame, args []Value) Value {
+		pp := args[0].(*Value)
+		key := fmt.Sprintf("pool:%p", pp)
+		items, _ := m.env[key].([]Value)
+		if len(items) > 0 && m.Choose(2) == 0 {
+			it := items[len(items)-1]
+			m.env[key] = items[:len(items)-1]
+			return it
+		}
+		st := m.P.Package("sync").Pkg.Scope().Lookup("Pool").Type().Underlying().(*types.Struct)
+		for i := 0; i < st.NumFields(); i++ {
+			if st.Field(i).Name() == "New" {
+				fn := (*pp).(Struct)[i]
+				if f, ok := fn.(*ssa.Function); ok && f == nil {
+					return Iface{}
+				}
+				if fn == nil {
+					return Iface{}
+				}
+				return m.call(fn, fr, nil)
+			}
+		}
+		return Iface{}
 	}
 	I["(*sync.WaitGroup).Add"] = noop
 	I["(*sync.WaitGroup).Done"] = noop
@@ -1240,6 +1291,84 @@ func (m *Machine) parseDec(fr *frame, b []*smt.Term, bitSize int) Value {
 			return bad()
 		}
 		val = c.Add(c.Mul(val, c.Const(10, 64)), c.Zext(c.Sub(b[i], m.b8('0')), 64))
+	}
+	if neg {
+		val = c.Neg(val)
+	}
+	if bitSize < 64 {
+		lim := int64(1) << uint(bitSize-1)
+		in := c.And(c.Sle(m.i64(-lim), val), c.Slt(val, m.i64(lim)))
+		if !m.Branch(in) {
+			return Tuple{c.Ite(c.Slt(val, m.i64(0)), m.i64(-lim), m.i64(lim-1)), m.newError("strconv: value out of range")}
+		}
+	}
+	return Tuple{val, Iface{}}
+}
+
+// parseBase: strconv.ParseInt on symbolic bytes for base 0, 2, 8, 16 (base 0:
+// the prefix decides; a leading "0" alone means octal). Underscores (legal in
+// some positions with base 0) are outside the model.
+func (m *Machine) parseBase(fr *frame, b []*smt.Term, base, bitSize int) Value {
+	c := m.C
+	bad := func() Value { return Tuple{m.i64(0), m.newError("strconv: invalid syntax")} }
+	if len(b) == 0 {
+		return bad()
+	}
+	neg := false
+	i := 0
+	if m.Branch(c.Eq(b[0], m.b8('-'))) {
+		neg, i = true, 1
+	} else if m.Branch(c.Eq(b[0], m.b8('+'))) {
+		i = 1
+	}
+	if i == len(b) {
+		return bad()
+	}
+	is := func(t *smt.Term, lo, up byte) bool {
+		return m.Branch(c.Or(c.Eq(t, m.b8(lo)), c.Eq(t, m.b8(up))))
+	}
+	if base == 0 {
+		base = 10
+		if m.Branch(c.Eq(b[i], m.b8('0'))) && len(b)-i >= 2 {
+			switch {
+			case is(b[i+1], 'x', 'X'):
+				base, i = 16, i+2
+			case is(b[i+1], 'b', 'B'):
+				base, i = 2, i+2
+			case is(b[i+1], 'o', 'O'):
+				base, i = 8, i+2
+			default:
+				base, i = 8, i+1
+			}
+			if i == len(b) {
+				return bad()
+			}
+		}
+	}
+	if len(b)-i > 15 {
+		m.unsupported("parseBase: more than 15 symbolic digits")
+	}
+	val := c.Const(0, 64)
+	for ; i < len(b); i++ {
+		ch := b[i]
+		if m.Branch(c.Eq(ch, m.b8('_'))) {
+			m.unsupported("parseBase: underscore in a base-prefixed literal")
+		}
+		var dig *smt.Term
+		switch {
+		case m.Branch(c.And(c.Ule(m.b8('0'), ch), c.Ule(ch, m.b8('9')))):
+			dig = c.Sub(ch, m.b8('0'))
+		case m.Branch(c.And(c.Ule(m.b8('a'), ch), c.Ule(ch, m.b8('z')))):
+			dig = c.Add(c.Sub(ch, m.b8('a')), m.b8(10))
+		case m.Branch(c.And(c.Ule(m.b8('A'), ch), c.Ule(ch, m.b8('Z')))):
+			dig = c.Add(c.Sub(ch, m.b8('A')), m.b8(10))
+		default:
+			return bad()
+		}
+		if !m.Branch(c.Ult(dig, m.b8(byte(base)))) {
+			return bad()
+		}
+		val = c.Add(c.Mul(val, c.Const(uint64(base), 64)), c.Zext(dig, 64))
 	}
 	if neg {
 		val = c.Neg(val)
